@@ -243,6 +243,22 @@ def leb128_rule(repo: Repo, rep: Report, rid: str) -> None:
                   "group width 7, and both consult cls.signed")
     rd = repo.func("types/leb128.py", "LEB128._read")
     wr = repo.func("types/leb128.py", "LEB128._write")
+    from ..folds import fold_leb128
+
+    fold = fold_leb128(repo)
+    if fold is not None:
+        rep.info["leb128_fold_cases"] = fold["cases"]
+        bad = fold["read_bad"]
+        rep.check(not bad, rid, f"{rd.key}:fold", f"reader folded over the reference (S)LEB128 encodings of {fold['cases']} (signedness, value) cases: gives the value "
+                  "back, consumes exactly the encoding, refuses truncated input",
+                  f"LEB128 reader: (signed, value, encoding, result, bytes consumed) = {bad[0] if bad else ''}", rd.loc())
+        bad = fold["write_bad"]
+        rep.check(not bad, rid, f"{wr.key}:fold", "writer folded over the same cases: emits exactly the reference encoding and refuses negative values when unsigned",
+                  f"LEB128 writer: (signed, value, emitted, reference) = {bad[0] if bad else ''}", wr.loc())
+        bad = fold["loop_bad"]
+        rep.check(not bad, rid, "types/leb128.py:LEB128:termination", "both loops end on every folded value",
+                  f"LEB128 {bad[0][0] if bad else ''} does not terminate for (signed, value) = {bad[0][1:] if bad else ''}", rd.loc())
+        return
 
     def consts(fi: FuncInfo, optype) -> set[int]:
         out = set()
@@ -283,3 +299,39 @@ def run(repo: Repo, rep: Report, tier: str) -> None:
     from .c02 import leb128_termination_rule
 
     leb128_termination_rule(repo, rep, "C05.R6")
+    codec_fold_rule(repo, rep, "C05.R7")
+
+
+
+_CODEC_FOLDS: dict = {}
+
+
+def codec_fold_rule(repo: Repo, rep: Report, rid: str, slots: tuple[str, ...] | None = None, only: str | None = None) -> None:
+    """Shared by C01/C02/C05/C07/C08: the Int and Packed families folded through their resolved protocol slots (csa/codecfold.py)."""
+    from .. import codecfold
+
+    rep.rule(rid, "scalar codecs folded: for the Int and Packed families every protocol slot (as resolved through the class and metaclass MRO) is interpreted "
+                  "over a stream model for all five byte-order characters, several widths and boundary values, and must produce the reference result "
+                  "(values, position, bytes written); short input, a trailing partial element of an EOF-sized array and out-of-range values must raise"
+                  + (f" [slots: {', '.join(slots)}]" if slots else "") + (f" [cases: {only}]" if only else ""))
+    n = 0
+    expected = 0
+    for fam in ("Int", "Packed", "Wchar", "Char"):
+        k = (id(repo), fam)
+        if k not in _CODEC_FOLDS:
+            _CODEC_FOLDS[k] = codecfold.fold_family(repo, fam) if fam in ("Int", "Packed") else codecfold.fold_text_family(repo, fam)
+        fold = _CODEC_FOLDS[k]
+        if fold is None:
+            rep.ok(rid, f"types:{fam}:fold", "not foldable with the evaluator's whitelist: the structural rules of this property decide alone", "", nontrivial=False)
+            continue
+        rep.info[f"codec_fold_cases_{fam}"] = fold["cases"]
+        fam_slots = [s_ for s_ in (slots or codecfold.SLOTS[:-1]) if fam in ("Int", "Packed") or s_ in ("_read", "_read_array", "_read_0", "_write")]
+        for slot in fam_slots:
+            bad = [b for b in fold["bad"] if b[0] == slot and (only is None or only in b[2])]
+            impl = fold["slots"].get(slot)
+            n += 1
+            expected += 1
+            rep.check(not bad, rid, f"types:{fam}.{slot}:fold", f"{impl} gives the reference result on every folded case",
+                      f"{fam}.{slot} (implemented by {impl}) for {bad[0][1] if bad else ''}, case '{bad[0][2] if bad else ''}': got {bad[0][3] if bad else ''!r}, "
+                      f"reference {bad[0][4] if bad else ''!r}", repo.module("types/" + fam.lower() + ".py").path)
+    rep.floor(rid, "folded codec slots", n, expected)
